@@ -11,6 +11,7 @@
           canon=DIFF:<why>
         inner verdict (compressed produce only): what was handed to the codec is what the model
         hands to it (inner=ok / inner=DIFF)
+     canonf <key> <ver> <corr> <client> <frame>   -> canon verdict of these bytes (captured from the real Conn)
      neg <key> <min:max | -> <supported>   -> <version | none>
      fetchmin S<topic>                       -> <size>
      saslraw B<data>                         -> <bytes> *)
@@ -192,6 +193,9 @@ let eval (op : string) (a : string list) : string =
     let corr = z_of_hex corr and client = bytes_of_hex client in
     let frame = conn_frame corr client r in
     hex_of_bytes frame ^ " " ^ canon frame (creq_key r) (creq_ver r) corr client ^ inner ()
+  | "canonf", [key; ver; corr; client; frame] ->
+    (* the generic schema model on bytes captured from the real Conn *)
+    canon (bytes_of_hex frame) (z_of_hex key) (z_of_hex ver) (z_of_hex corr) (bytes_of_hex client)
   | "neg", [_key; adv; sup] ->
     let adv = (if adv = "-" then None
                else match String.split_on_char ':' adv with
